@@ -11,7 +11,7 @@ RULE = ("regular fragment (compared with the model op by op): steady-state traff
 def run(ctx):
     ctx.trusted_base += [
         "Model/Life.lean (hand-written from Proxy.Run's reconnect branch, Proxy.ConnectDest, Scheduler.Run's destination-error handling) on top of Model/Session.lean",
-        "lifecycle harness harness/allocator/verif_life_test.go: a real Scheduler over a real Proxy between a fake miner and fake pools (net.Pipe, synctest bubble) with what the TCP handler does around them; pool-side close, unreachable / not authorising pools, miner hang-up, shutdown; after every op the open pool connections, the number of Proxy.Run / Pipe.Run goroutines (from runtime.Stack), whether the scheduler runs and whether the miner is listed",
+        "lifecycle harness harness/tcphandlers/verif_life_test.go: the real TCP handler (tcphandlers.NewTCPHandler: StratumConnection, ConnSource, Proxy, Scheduler, the allocator's miner list) serving a fake miner over net.Pipe, with fake pools behind the DestConnFactory seam, in a synctest bubble; pool-side close, unreachable / not authorising pools, handshake faults, miner hang-up, shutdown, idle time; after every op the open pool connections, the number of Proxy.Run / Pipe.Run goroutines (from runtime.Stack), whether the scheduler runs and whether the miner is listed",
         "monitor Driver/LifeMon.lean on the random stream: dials per pool within one per failure / task / initial connection (no reconnect storm), a pool connection is closed by the proxy only with a reason, a failed change of destination keeps the miner on its pool",
         "modelled, not verified: timing inside one quiescence step; which error wins after a shutdown",
     ]
